@@ -953,14 +953,15 @@ def numberFormatV (v : Val) (args : List Val) : Res :=
     match optIntArg args with
     | .error e => e
     | .ok d =>
-      let decPoint : Bytes := match args with
-        | _ :: .sc (.str x) :: _ => x
+      let decPoint : Bytes := match args.drop 1 with
+        | .sc (.str x) :: _ => x
         | _ => [46]
-      let sep : Bytes := match args with
-        | _ :: _ :: .sc (.str x) :: _ => x
+      let sep : Bytes := match args.drop 2 with
+        | .sc (.str x) :: _ => x
         | _ => [44]
-      if d < 0 || !exactFloat m k then .unsupported else
-      let d := d.toNat
+      if d > 1000000 then .err else                    -- "decimals are out of range"
+      if !exactFloat m k then .unsupported else
+      let d := d.toNat                                  -- a negative number of decimals means none
       let n := Num.goFixedN m k d
       if n ≥ 10 ^ 15 && !(k == 0) then .unsupported else   -- more digits than a double carries
       let (ip, fp) := fixedParts n d
